@@ -43,32 +43,38 @@ EXEC = {"Handled": sorted(set(ENUM) - UNHANDLED), "Unhandled": sorted(UNHANDLED)
 
 
 def exhaustive(ctx, sd):
+    """The exhaustive configurations, one per property family; run side by side (separate JVMs)."""
+    from concurrent.futures import ThreadPoolExecutor
     q = ctx.quick()
+    jobs = []   # (module, cfg, kwargs)
     # snapshot / crash / restart / install family: two nodes, leader-issued commands
     # (measured: 3 commands x 3 kinds x 2 crashes exceeds 12 M states - not used)
     ctx.write_cfg(sd, "MCS.cfg", "Spec", mc_consts(Kinds=S("CDN", "UDN") if q else S("CDN", "UDN", "CSUB"), MaxCmds=2,
                                                    MaxCrashes=1 if q else 2), INV, extra="SYMMETRY Sym\n" + PROPS)
-    r = ctx.tlc_check(sd, "MetaRaft", "MCS.cfg", workers=8, timeout=ctx.pick(400, 3000), coverage=not q)
-    if not q:
-        # vacuity guard: every action of the module is taken (client actions are covered by the next config)
-        clientside = ("Propose", "Respond", "Fail", "WaitDone", "Poll")
-        zero = [z for z in r.get("zero_coverage", []) if "@MetaRaft:" in z and not z.startswith(clientside)]
-        if zero:
-            raise Infra("actions never taken in MCS: %s" % zero)
-        # the same family with three nodes (follower installs, two followers snapshotting independently)
-        ctx.write_cfg(sd, "MCS3.cfg", "Spec", mc_consts(Nodes=["n1", "n2", "n3"], Kinds=S("CDN"), MaxCmds=2, MaxCrashes=1),
-                      INV, extra="SYMMETRY Sym\n" + PROPS)
-        ctx.tlc_check(sd, "MetaRaft", "MCS3.cfg", workers=8, timeout=3000)
+    jobs.append(("MetaRaft", "MCS.cfg", dict(workers=4, timeout=ctx.pick(600, 3000), coverage=not q)))
     # client family: three nodes, one client, acknowledgements, cache, leader changes, one crash
     ctx.write_cfg(sd, "MCC.cfg", "Spec", mc_consts(Nodes=["n1", "n2", "n3"], Clients=S("c1"), MaxSnaps=0, MaxCrashes=1,
                                                    Kinds=S("CDN") if q else S("CDN", "UDN")), INV, extra="SYMMETRY Sym\n" + PROPS)
-    ctx.tlc_check(sd, "MetaRaft", "MCC.cfg", workers=8, timeout=ctx.pick(400, 3000))
+    jobs.append(("MetaRaft", "MCC.cfg", dict(workers=4, timeout=ctx.pick(600, 3000))))
     # liveness under fairness: no state constraint, no symmetry
     ctx.write_cfg(sd, "MCL.cfg", "FairSpec", mc_consts(Nodes=S("n1", "n2"), Clients=S("c1"), Kinds=S("CDN"), MaxCmds=1 if q else 2,
                                                        MaxCrashes=1), [], extra="PROPERTIES C07_Converge")
-    ctx.tlc_check(sd, "MetaRaft", "MCL.cfg", workers=4, timeout=ctx.pick(400, 3000))
-    # request pipeline: MetaExec is checked exhaustively by the run that enumerates its cases (fsm_level)
+    jobs.append(("MetaRaft", "MCL.cfg", dict(workers=4, timeout=ctx.pick(600, 3000))))
     if not q:
+        # the snapshot family with three nodes (follower installs, two followers snapshotting independently)
+        ctx.write_cfg(sd, "MCS3.cfg", "Spec", mc_consts(Nodes=["n1", "n2", "n3"], Kinds=S("CDN"), MaxCmds=2, MaxCrashes=1),
+                      INV, extra="SYMMETRY Sym\n" + PROPS)
+        jobs.append(("MetaRaft", "MCS3.cfg", dict(workers=4, timeout=3000)))
+    # (request pipeline: MetaExec is checked exhaustively by the run that enumerates its cases, see fsm_level)
+    with ThreadPoolExecutor(max_workers=4) as ex:
+        futs = {cfg: ex.submit(ctx.tlc_check, sd, mod, cfg, **kw) for mod, cfg, kw in jobs}
+        res = {cfg: f.result() for cfg, f in futs.items()}
+    if not q:
+        # vacuity guard: every action of the module is taken (client actions are covered by MCC)
+        clientside = ("Propose", "Respond", "Fail", "WaitDone", "Poll")
+        zero = [z for z in res["MCS.cfg"].get("zero_coverage", []) if "@MetaRaft:" in z and not z.startswith(clientside)]
+        if zero:
+            raise Infra("actions never taken in MCS: %s" % zero)
         # negative controls: the invariants are able to fail on a model of the defects (vacuity guard)
         for name, consts, what in [
             ("NCS.cfg", mc_consts(Dev=S("persistLive"), MaxCrashes=1), "C07_SnapshotIsPointInTime"),
@@ -208,7 +214,7 @@ def cluster(ctx, sd):
                 break
             # no leader in time, port taken by another process, driver watchdog ...: the test bed failed, not the
             # property.  One more attempt (the machine is shared), then the check declares itself broken.
-            if attempt == 2 or "INFRA:" not in out:
+            if attempt == 2 or "INFRA:" not in out or "verif hooks are missing" in out:
                 raise Infra("cluster driver did not complete (rc=%s):\n%s" % (rc, out[-3000:]))
             log("note: cluster test bed failed (%s), retrying once" % (re.findall(r"INFRA: [^\n]*", out) or ["?"])[0][:300])
         res = ctx.tlc_trace(sd, "MetaRaftTrace", tp, cfg="Trace.cfg", timeout=600)
